@@ -95,6 +95,19 @@ impl Next<f64> for WeightedMovingAverage {
             self.sum = self.sum - self.sum_flat + (input * self.weight);
         }
         self.sum_flat = self.sum_flat - old_val + input;
+        // Once per revolution of the ring the slots are in chronological order: recompute both
+        // running totals from the window, so that rounding residue is forgotten together with
+        // the inputs that caused it instead of accumulating over the whole stream.
+        if self.index == 0 && self.count == self.period {
+            let mut sum = 0.0;
+            let mut sum_flat = 0.0;
+            for (i, value) in self.deque.iter().enumerate() {
+                sum += value * (i + 1) as f64;
+                sum_flat += value;
+            }
+            self.sum = sum;
+            self.sum_flat = sum_flat;
+        }
         self.sum / (self.weight * (self.weight + 1.0) / 2.0)
     }
 }
